@@ -31,9 +31,12 @@ static void check_size(size_t n, size_t* prev_bsize, size_t* prev_n) {
     const size_t g = mi_good_size(n);
     n_good++;
     if (g < n) FAIL("mi_good_size(%zu) = %zu < n", n, g);
-    if (!padding) {
+    {
       const size_t g2 = mi_good_size(g);
       if (g2 != g) FAIL("mi_good_size not idempotent: %zu -> %zu -> %zu", n, g, g2);
+      // asking for the good size must land in the same size class as the request itself (builds with padding: the padding is added to both)
+      if (g + MI_PADDING_SIZE <= MI_MEDIUM_OBJ_SIZE_MAX && mi_bin(g + MI_PADDING_SIZE) != mi_bin(n + MI_PADDING_SIZE))
+        FAIL("mi_malloc(mi_good_size(%zu) = %zu) uses size class %zu but mi_malloc(%zu) uses class %zu", n, g, (size_t)mi_bin(g + MI_PADDING_SIZE), n, (size_t)mi_bin(n + MI_PADDING_SIZE));
     }
     if (n > 64 && (g - n) > n / 4 + 4096 + 8) FAIL("mi_good_size(%zu) = %zu: more than 25%% internal fragmentation", n, g);
   }
